@@ -83,7 +83,8 @@ def minimize(
     hms_tree.run()
     return OptimizeResult(
         x=hms_tree.best_individual.genome,
-        nfev=hms_tree.n_evaluations,
+        # With a budget, deme counters also count the evaluations the cutoff wrapper refused: report the real calls.
+        nfev=wrapped_function_problem.n_evaluations if maxfun else hms_tree.n_evaluations,
         fun=hms_tree.best_individual.fitness,
         nit=hms_tree.metaepoch_count,
     )
